@@ -15,7 +15,7 @@ P = {
          "All 784 abstract states of a finite value/name domain (13 values incl. both zeros and tuples of different element types), each reached by a clean and a dirty (other types, clone, clear) history, x every operation (set_value, 9 assignment operators with literal and variable right-hand sides, reads, clears, set_function, toggle, clone-and-continue); return values and complete observable state equal the model after every step. Random histories up to 60 steps over a larger domain.",
          "Model = BTreeMap with type tags; exact ExpectedT{actual} on type clashes."),
  "C05": ("4 C05", "exhaustive token-sequence enumeration + proptest nested sequences; libFuzzer in thorough; oracle: reference chain-of-tuples parser and reference interpreter (value + effects)",
-         "Every sequence up to length 7 (quick) / 9 (thorough) over `1 x = , ; ( )` and up to 5 / 6 over the 16-symbol base alphabet; well-formed ones must build into the reference tree and evaluate to the reference value and final variables; random nested sequences with empty elements.",
+         "Every sequence up to length 7 (quick) / 9 (thorough) over `1 x = , ; ( )` and up to 5 / 6 over the 16-symbol base alphabet; well-formed ones must build into the reference tree and evaluate to the reference value and final variables (tree level, and through the string-level mutable and read-only entry points); random nested sequences with empty elements.",
          "An absent element is the empty value; D1-D4 unclaimed."),
  "C06": ("4 C06", "proptest round trips (eval(quote(t)) = t, decimal/hex = n, renderings of x = x) + differential against std parse and the reference tokenizer",
          "Arbitrary Unicode strings with planted illegal escapes and removed quotes, integers in 7 renderings, floats in up to 11 renderings each embedded 10 ways between tokens without spaces, float texts from the grammar, identifier and number look-alike words.",
@@ -45,11 +45,11 @@ P = {
          "The ten iterators against the occurrence list, overwrite-through-mutable-iterator exactness, unknown-identifier errors listed, injective renaming commutes with evaluation (result, calls, final context).",
          "The occurrence list is that of the reference parse of the source; a tree whose shape differs from it (C02/C05's business) is still held to the source's identifiers."),
  "C15": ("4 C15", "generated read-only programs evaluated concurrently (2..16 threads) vs sequential oracle; Send + Sync decided by the check's own need to type-check",
-         "Sampled schedules only: the harness does not own the scheduler. The compile-time half (eight assert_send_sync lines plus code that really shares and moves the types) is decisive; the dynamic half samples staggered concurrent evaluation of shared trees and contexts.",
+         "Sampled schedules only: the harness does not own the scheduler. The compile-time half (eight assert_send_sync lines plus code that really shares and moves the types) is decisive; the dynamic half samples staggered concurrent evaluation (incl. a contention batch: every builtin with 12 different arguments from staggered threads) of shared trees and contexts.",
          "No interleaving enumeration; loom/shuttle not applicable (no primitives to instrument)."),
- "C16": ("4 C16", "proptest round trips through serde's &str deserializer, an exact in-memory serde data-model format and serde_json",
+ "C16": ("4 C16", "proptest round trips through serde's &str / borrowed-str deserializers, an exact in-memory serde data-model format, RON (vendored ron 0.8.1, the format of evalexpr's own serde tests) and serde_json (string and reader)",
          "Node deserialisation equals build_operator_tree (tree or message) for generated strings; generated contexts round-trip with identical variables (bit-exact, NaN<->NaN), switch, and no functions.",
-         "ron unavailable to this toolchain's registry; JSON used only for finite floats."),
+         "ron 0.8.1 and base64 0.21.7 are vendored under harness_serde/vendor (this toolchain's registry cache has neither); RON and JSON used only for finite floats."),
 }
 checks=[]
 for pid,(ref,tech,text,note) in P.items():
